@@ -88,6 +88,8 @@ func genC01(t *rapid.T) c01Case {
 		c.Cfg.StreamMaxBuf = rapid.SampledFrom([]int{1, 50, 5000}).Draw(t, "smaxbuf")
 	}
 	n := rapid.IntRange(1, 3).Draw(t, "nrpcs")
+	twoReceivers := false
+	c.Cfg.RawAPI = rapid.IntRange(0, 3).Draw(t, "rawapi") == 0
 	for i := 0; i < n; i++ {
 		var p sim.RPC
 		p.NoFinalClose = true
@@ -151,12 +153,19 @@ func genC01(t *rapid.T) c01Case {
 		}
 		c.Closer = append(c.Closer, closer)
 		c.RPCs = append(c.RPCs, p)
+		if shape == 3 {
+			twoReceivers = true
+		}
 	}
 	if rapid.IntRange(0, 2).Draw(t, "points") == 0 {
 		c.Cfg.Points = rapid.SliceOfNDistinct(rapid.SampledFrom(append([]string{"harness.Unmarshal.holding", "harness.Unmarshal.holding", "manager.manageReader.beforeDispatch"}, streamPoints...)), 1, 3, func(s string) string { return s }).Draw(t, "pts")
 		c.Cfg.PointLimit = 8
 	}
 	c.Choices = genChoices(t, 400)
+	if twoReceivers {
+		// the raw stream interface (RawWrite+RawFlush, RawRecv) only where each side has one receiver per stream
+		c.Cfg.RawAPI = false
+	}
 	return c
 }
 
@@ -245,7 +254,7 @@ func runC01(c c01Case) (r pbt.Result) {
 			continue
 		}
 		// flush guarantee: a send that returned nil (automatic flushing) is already on the transport
-		if !c.Cfg.ManualFlush {
+		if !c.Cfg.ManualFlush && !c.Cfg.RawAPI { // (the statement speaks of send calls with automatic flushing: MsgSend)
 			tag := uint32(key.k)<<8 | uint32(key.sub)
 			end, ok := logs[key.side].MsgEnd[fmt.Sprintf("%d/%c/%d", tag, key.side, key.seq)]
 			if !ok {
@@ -385,6 +394,9 @@ func runC01(c c01Case) (r pbt.Result) {
 	}
 	if c.Cfg.ReaderMax > 0 {
 		r.Label("messages_at_the_readers_limit")
+	}
+	if c.Cfg.RawAPI {
+		r.Label("raw_stream_interface")
 	}
 	r.NonTrivial = multiFrame || concurrent || parkedUnmarshal
 	r.Key = strings.Join(w.Trace, ",") + fmt.Sprintf("|%+v|%+v", c.Cfg, c.RPCs)
